@@ -1,4 +1,5 @@
 import Posmint.Lemmas.ChainSlash
+import Posmint.Lemmas.ChainFrame2
 /-!
 Preservation of the signing-info component of `Inv` by every operation.
 -/
@@ -207,6 +208,12 @@ theorem rewardFromFees_valsStep (s : State) : ValsStep s (rewardFromFees s) := b
     split
     · exact hs1.trans (send_getD_valsStep _ _ _ _)
     · exact hs1
+
+theorem send2_getD_valsStep (s : State) (src dst : Addr) (amt : Int) : ValsStep s ((send2 s src dst amt).getD s) :=
+  valsStep_of_eq _ _ (F2.vals_send2_getD ..) (F2.sign_send2_getD ..) (F2.rel_send2_getD ..)
+
+theorem rewardFromFees2_valsStep (s : State) : ValsStep s (rewardFromFees2 s) :=
+  valsStep_of_eq _ _ (F2.vals_rewardFromFees2 _) (F2.sign_rewardFromFees2 _) (F2.rel_rewardFromFees2 _)
 
 theorem mintAwards_valsStep (s s' : State) (h : mintAwards s = some s') : ValsStep s s' := by
   unfold mintAwards at h
@@ -665,13 +672,13 @@ theorem beginBlock_signInv (s s' : State) (time : Int) (proposer : Addr) (votes 
   rename_i s3 h3
   have h0 : ValsStep s { s with height := s.height + 1, time := time } := valsStep_of_eq _ _ rfl rfl rfl
   have h1 : ValsStep s (if ({ s with height := s.height + 1, time := time } : State).height > 1
-      then rewardFromFees { s with height := s.height + 1, time := time }
+      then rewardFromFees2 (rewardFromFees { s with height := s.height + 1, time := time })
       else { s with height := s.height + 1, time := time }) := by
     split
-    · exact h0.trans (rewardFromFees_valsStep _)
+    · exact (h0.trans (rewardFromFees_valsStep _)).trans (rewardFromFees2_valsStep _)
     · exact h0
   generalize (if ({ s with height := s.height + 1, time := time } : State).height > 1
-      then rewardFromFees { s with height := s.height + 1, time := time }
+      then rewardFromFees2 (rewardFromFees { s with height := s.height + 1, time := time })
       else { s with height := s.height + 1, time := time }) = s1 at h1 h3
   rw [Option.bind_eq_some_iff] at h3
   obtain ⟨s2, hm, hb⟩ := h3
@@ -695,14 +702,16 @@ theorem runTx_signInv (s : State) (mode : Mode) (t : Tx) (hi : SignInv s) : Sign
   split; · exact hi
   split; · exact hi
   simp only []
-  have ha : SignInv ((send s (t.msg.signer s) s.feeAcc t.feeEff).getD s) :=
-    (send_getD_valsStep _ _ _ _).signInv hi
+  have ha : SignInv ((send2 ((send s (t.msg.signer s) s.feeAcc t.feeEff).getD s) (t.msg.signer s) s.feeAcc t.fee2).getD
+      ((send s (t.msg.signer s) s.feeAcc t.feeEff).getD s)) :=
+    ((send_getD_valsStep _ _ _ _).trans (send2_getD_valsStep _ _ _ _)).signInv hi
   cases mode with
   | check => exact hi
   | simulate => exact hi
   | deliver =>
     simp only []
-    cases hh : handle ((send s (t.msg.signer s) s.feeAcc t.feeEff).getD s) t.msg with
+    cases hh : handle ((send2 ((send s (t.msg.signer s) s.feeAcc t.feeEff).getD s) (t.msg.signer s) s.feeAcc t.fee2).getD
+      ((send s (t.msg.signer s) s.feeAcc t.feeEff).getD s)) t.msg with
     | none => exact ha
     | some s' => exact handle_signInv _ _ _ ha hh
 
